@@ -182,6 +182,30 @@ class DiscInfo(productmd.common.MetadataBase):"""),
                 f.write(text)
 """),
     ]},
+    {"name": "extra-files-size-must-be-an-integer+discinfo-refuses-multi-line-text-in-validate", "edits": [
+        ("productmd/extra_files.py", """        if not isinstance(checksums, dict):
+            raise TypeError("Checksums must be a dict.")
+""", """        if not isinstance(checksums, dict):
+            raise TypeError("Checksums must be a dict.")
+
+        if isinstance(size, bool) or not isinstance(size, six.integer_types):
+            raise TypeError("Size must be an integer.")
+"""),
+        ("productmd/extra_files.py", """import json
+""", """import json
+
+import six
+"""),
+        (DI, """    def _validate_description(self):
+        self._assert_not_blank("description")
+        self._assert_type("description", [str])
+""", """    def _validate_description(self):
+        self._assert_not_blank("description")
+        self._assert_type("description", [str])
+        if self.description != self.description.strip() or len(self.description.splitlines()) != 1:
+            raise ValueError("DiscInfo: description must be a single line without surrounding blanks")
+"""),
+    ]},
     {"name": "variant-add-validates-first-on-the-would-be-parent+top-level-parent-cleared-in-wrapper", "edits": [
         (CI, """        old_parent = variant.parent
         try:
